@@ -203,6 +203,10 @@ def apply_site(ctx, site):
 def run_one(site):
     t0 = time.time()
     try:
+        os.utime(CTX.base, None)  # keep a concurrent extraction (another tree) from pruning the fact set this audit reads lazily
+    except OSError:
+        pass
+    try:
         c2 = apply_site(CTX, site)
     except Exception as e:
         return site, {'error': 'apply: %r' % e}, 0
